@@ -119,8 +119,8 @@ def run(item):
         g, v = func.oracle(x)
         if is_new_leaf(g):
             roles[g.counter] = (role, x, 0)
-        elif not (g.get_is_leaf() or sparse_pt(g) == [] or g is x):
-            raise RuntimeError("oracle of a leaf function returned a derived gradient")
+        # (a gradient that is not a new leaf - a stored one, zero, the point itself, or a combination - is judged by its
+        #  meaning: MembersTrace.SampleBad compares it with the member's (sub)gradients at that point)
         if v.get_is_leaf() and v.counter not in fr:
             fr[v.counter] = x
         return g
@@ -180,6 +180,9 @@ def run(item):
                 g = sample(f, x, "grad")
             elif e == "G":
                 x = X[i] - Gd[i] / 2
+                g = sample(f, x, "grad")
+            elif e == "D":
+                x = 2 * X[i]
                 g = sample(f, x, "grad")
             elif e == "B":
                 x = X[i] - partition.get_block(Gd[i], j) / 2
